@@ -1,0 +1,47 @@
+//go:build verif
+
+package nsqd
+
+// VerifHeld returns the bodies of the messages a channel currently holds in flight and
+// deferred (the harness tags every body with its publish sequence number).
+func (n *NSQD) VerifHeld(topicName, channelName string) (inflight [][]byte, deferred [][]byte, ok bool) {
+	t, err := n.GetExistingTopic(topicName)
+	if err != nil {
+		return nil, nil, false
+	}
+	c, err := t.GetExistingChannel(channelName)
+	if err != nil {
+		return nil, nil, false
+	}
+	c.inFlightMutex.Lock()
+	for _, m := range c.inFlightMessages {
+		inflight = append(inflight, m.Body)
+	}
+	c.inFlightMutex.Unlock()
+	c.deferredMutex.Lock()
+	for _, it := range c.deferredMessages {
+		deferred = append(deferred, it.Value.(*Message).Body)
+	}
+	c.deferredMutex.Unlock()
+	return inflight, deferred, true
+}
+
+// VerifScan runs the channel's timeout scan (processInFlightQueue or
+// processDeferredQueue, exactly what the queueScanWorker calls) with a clock reading
+// chosen by the harness.
+func (n *NSQD) VerifScan(topicName, channelName string, t int64, inflight bool) bool {
+	tp, err := n.GetExistingTopic(topicName)
+	if err != nil {
+		return false
+	}
+	c, err := tp.GetExistingChannel(channelName)
+	if err != nil {
+		return false
+	}
+	if inflight {
+		c.processInFlightQueue(t)
+	} else {
+		c.processDeferredQueue(t)
+	}
+	return true
+}
